@@ -107,9 +107,12 @@ TEXT = {
           "duplicated (shiftBack_perm, extend_perm). Hence, for all histories and colliding hashes: every answer of insert / remove is "
           "the answer of the set (C20_hset_answers), contains is membership (C20_hset_contains), the size field is the cardinality and "
           "the enumeration after close lists every key exactly once (C20_hset_enumeration). Hypothesis: equal keys (equal polynomials) "
-          "have equal hashes. intersect / clear / insert_vector of the table and the vector are tied by correspondence only.",
+          "have equal hashes. lp_polynomial_hash_set_intersect keeps the invariants and leaves exactly the elements to keep (intersect_ok: the "
+          "backward shift only moves elements towards the original hole, shiftBack_src, so everything in front of the current slot was "
+          "examined and kept), which extends the refinement to every history of insertions, removals and intersections "
+          "(C20_hset_refines2, C20_hset_observers2). clear / insert_vector of the table and the vector are tied by correspondence only.",
   "design_ref": "5.20",
-  "note": "proved for every history: the heap mirror (multiset and heap order) and the table mirror under insert / remove (refinement to the mathematical set); the mirrors are tied to the C arrays slot by slot on 20k histories per quick run (forced collisions, wrap-around, growth); intersect / clear / insert_vector / vector: correspondence only; elements abstracted to (identity, reported hash)",
+  "note": "proved for every history: the heap mirror (multiset and heap order) and the table mirror under insert / remove / intersect (refinement to the mathematical set); the mirrors are tied to the C arrays slot by slot on 20k histories per quick run (forced collisions, wrap-around, growth); clear / insert_vector / vector: correspondence only; elements abstracted to (identity, reported hash)",
   "technique": "Lean 4 proved reference semantics + slot-exact mirror model + history-based differential correspondence",
  },
  "C01": {
